@@ -94,7 +94,6 @@ func ZZVerif_C20_ClaimCalldata() {
 	} else {
 		gi = GenerateGlobalIndex(zzverif.Bool("giMainnet"), zzverif.U32("giRollup"), zzverif.U32("giLeaf"))
 	}
-	giOther := new(big.Int).Add(gi, big.NewInt(1))
 	frames := make([]call, nf)
 	specs := make([]zzFrameSpec, nf)
 	parent := make([]int, nf)
@@ -117,6 +116,14 @@ func ZZVerif_C20_ClaimCalldata() {
 			cc := &zzClaimCall{globalIndex: gi, mer: zzverif.Hash("mer"), rer: zzverif.Hash("rer"), origNet: zzverif.U32("origNet"), origAddr: zzverif.Addr("origAddr"),
 				destNet: zzverif.U32("destNet"), destAddr: zzverif.Addr("destAddr"), amount: new(big.Int).SetUint64(zzverif.U64("amount")), metadata: zzverif.Bytes("metadata", 2)}
 			if !s.matches {
+				// any other global index (it may agree with the event's in some of its parts: flag, rollup, leaf)
+				var giOther *big.Int
+				if preEtrogEvent {
+					giOther = new(big.Int).SetUint64(uint64(zzverif.U32("otherIndex")))
+				} else {
+					giOther = GenerateGlobalIndex(zzverif.Bool("otherMainnet"), zzverif.U32("otherRollup"), zzverif.U32("otherLeaf"))
+				}
+				zzverif.Assume(giOther.Cmp(gi) != 0)
 				cc.globalIndex = giOther
 			}
 			cc.proofLER[0] = zzverif.Hash("pl0")
